@@ -2,6 +2,47 @@
 import gen_prog, gen_lex, sweep
 
 
+PRE = ("class K(def v: Int)\n    def m(self, z: Int) -> Int => z + self.v\n"
+       "def g(z: Int) -> Int => z + 1\ndef gb(z: Bool) -> Bool => z\n"
+       "def a := 3\ndef c := 4\ndef b := True\ndef xs := [1, 2, 3]\ndef k := K(2)\n")
+# expression shapes by type: every syntactic category the printer distinguishes
+BOOL_SHAPES = ["b", "a > 2", "a > 2 and b", "a > 2 or b", "not b", "not (a > 2 and b)", "if b then a > 2 else a >= 2", "(a > 2)", "a = 2", "a != 2",
+               "gb(b)", "gb(a > 2) or b", "a in xs", "(if b then b else not b) and b", "a > 2 and (b or a < 9)", "k isa K"]
+INT_SHAPES = ["a", "7", "a + 1", "-a", "a * (c + 1)", "a - (c - 1)", "if b then 1 else 2", "g(a)", "g(if b then 1 else 2)", "k.v", "k.m(a)", "xs[0]", "(a)",
+              "a ^ 2", "-(a + 1)", "(if b then 1 else 2) + 1", "a // 2", "a mod 2", "2E2 // 100", "g(g(a))"]
+BOOL_CONTEXTS = ["def r := [y | y in xs, {E}]", "def r := [y | y in xs, y > 0, {E}]", "def r := [y | y in xs, {E}, y > 0]", "def r := {{y | y in xs, {E}}}",
+                 "def r := {{y => y + 1 | y in xs, {E}}}", "if {E} then print(1)", "if {E} then print(1) else print(2)", "def r := if {E} then 1 else 2",
+                 "while {E} do\n    b := False\n    a := 0", "def r: Bool := {E}", "def r := not ({E})", "def r := gb({E})", "print({E})", "def r := \"v={{{E}}}\"",
+                 "def h(z: Bool := True) -> Bool => {E}", "def r := [{E}, b]", "def r := ({E}, 1)", "def r := ({E}) and b", "def r := b or ({E})",
+                 "def r := match {E}\n    True => 1\n    False => 2", "def r := [[w | w in xs, {E}] | y in xs, {E}]"]
+INT_CONTEXTS = ["def r := [{E}, {E}]", "def r := ({E}, {E})", "def r := {{{E}, 1}}", "def r := xs[{E} - {E}]", "for i in {E} .. {E} do print(i)", "for i in 0 ..= {E} .. {E} do print(i)",
+                "def r := g({E})", "def r := k.m({E})", "def r := K({E})", "print({E})", "def r := \"v={{{E}}} w={{{E}}}\"", "def r := [{E} | y in xs]", "def r := [y + ({E}) | y in xs, y > {E}]",
+                "def r := {{{E} => {E} | y in xs}}", "def r := match a\n    1 => {E}\n    _ => {E}", "def h(z: Int) -> Int => {E}", "def h(z: Int) -> Int =>\n    print(z)\n    {E}",
+                "def r: Int := {E}", "def r := ({E}) * ({E})", "def r := -({E})", "def r := ({E}) > ({E})", "def r := if b then {E} else {E}", "a := {E}", "a += {E}",
+                "def r := {E} handle\n    err: Exception => {E}"]
+
+
+# inputs of repaired defects (known_findings.json `fixed:`): a regression is reported again
+REPAIRED = ["print(\"he\n wold\")\n", "def a := 2\nprint(\"x\n{a}y\")\n", "def b := True\ndef xs := [1, 2]\ndef r := {y => y + 1 | y in xs, if b then y > 1 else y >= 1}\n",
+            "def b := True\ndef d := {1 => if b then 1 else 2}\n", "def b := True\ndef xs := [1, 2]\ndef r := {(if b then 1 else 2) => (if b then 5 else 6) | y in xs}\n"]
+
+
+def context_grid(rng, thorough):
+    """every expression shape in every syntactic context that takes an expression"""
+    out = []
+    for ctxs, shapes in ((BOOL_CONTEXTS, BOOL_SHAPES), (INT_CONTEXTS, INT_SHAPES)):
+        for c in ctxs:
+            for e in shapes:
+                out.append(PRE + c.replace("{E}", e).replace("{{", "{").replace("}}", "}") + "\n")
+            if thorough:
+                for _ in range(12):      # different shapes in the holes of one context
+                    t = c
+                    while "{E}" in t:
+                        t = t.replace("{E}", rng.choice(shapes), 1)
+                    out.append(PRE + t.replace("{{", "{").replace("}}", "}") + "\n")
+    return out
+
+
 def run(chk):
     thorough = chk.tier == "thorough"
     ok = chk.build_harness()
@@ -20,7 +61,10 @@ def run(chk):
         for _ in range(rng.randint(1, 3)):
             t = gen_lex.mutate(rng, t)
         texts.append(t)
+    grid = context_grid(rng, thorough)
+    texts += grid
     texts += [f["input"] for f in chk.findings if f.get("input")]
+    texts += REPAIRED
     res = sweep.transpile(chk, texts)
     n_acc, distinct = 0, set()
     for i, (t, r) in enumerate(zip(texts, res)):
@@ -40,10 +84,10 @@ def run(chk):
         if i % 97 == 0:
             chk.sample({"input": t[:200], "accepted": r[0][0] == "ok"})
     layout(chk)
-    chk.cov["oracle"] = {"spec": "compile(emitted, 'exec') succeeds for every emitted module, both annotate settings", "inputs": len(texts), "emitted_modules": n_acc}
+    chk.cov["oracle"] = {"spec": "compile(emitted, 'exec') succeeds for every emitted module, both annotate settings", "inputs": len(texts), "emitted_modules": n_acc, "expression_in_context_programs": len(grid)}
     chk.cov["evaluations"] = len(texts)
     chk.cov["distinct_nontrivial"] = len(distinct)
-    chk.cov["rule"] = "distinct inputs accepted by the pipeline: repository samples, generated programs, and token-level mutants of both"
+    chk.cov["rule"] = "distinct inputs accepted by the pipeline: repository samples, generated programs, token-level mutants of both, and the grid expression shape x syntactic context (comprehension conditions/elements, collections, calls, indexes, ranges, f-strings, match/handle arms, returns, defaults, operands)"
 
 
 def layout(chk):
